@@ -7,7 +7,7 @@ import struct
 import typing as t
 import uuid
 
-from .. import taps  # noqa: F401
+from .. import taps
 from .. import provider, refdc, sdref
 from ..core import Ctx, MachineryError
 from ..tlc import require_ok, run_apalache, run_tlc
@@ -120,21 +120,22 @@ def one_request(stub: bytes, vt: bool, sig_len: int, sign: bool, flavour: str, r
     vtr = _vt() if vt else None
     resp = None
     try:
-        if flavour == "sync":
-            c = SyncRpcClient(Sock(srv), auth)  # type: ignore
-            c.bind(contexts=_isd_contexts())
-            resp = c.request(0, 0, stub, verification_trailer=vtr)
-        else:
-            async def go() -> t.Any:
-                r = asyncio.StreamReader()
-                c = AsyncRpcClient(r, Writer(srv, r), auth)  # type: ignore
-                await c.bind(contexts=_isd_contexts())
-                return await c.request(0, 0, stub, verification_trailer=vtr)
+        with taps.time_limit(20):
+            if flavour == "sync":
+                c = SyncRpcClient(Sock(srv), auth)  # type: ignore
+                c.bind(contexts=_isd_contexts())
+                resp = c.request(0, 0, stub, verification_trailer=vtr)
+            else:
+                async def go() -> t.Any:
+                    r = taps.CountingReader()
+                    c = AsyncRpcClient(r, Writer(srv, r), auth)  # type: ignore
+                    await c.bind(contexts=_isd_contexts())
+                    return await c.request(0, 0, stub, verification_trailer=vtr)
 
-            resp = _LOOP.run_until_complete(asyncio.wait_for(go(), 5))
+                resp = _LOOP.run_until_complete(asyncio.wait_for(go(), 5))
     except MachineryError:
         raise
-    except Exception as e:  # noqa  (the client under test rejected the reply or failed: judged from what was observed)
+    except (Exception, taps.Hang) as e:  # noqa  (the client under test rejected the reply or failed: judged from what was observed)
         resp = e
     obs = dict(srv.obs or {})
     wraps = [e for e in log if e["ev"] == "wrap"]
